@@ -1,0 +1,17 @@
+//go:build verif
+
+// Contracts for the govc verifier (/verif). This file contains comments only; it is compiled
+// only under the build tag "verif" and contributes no declarations.
+package executor
+
+// ---------------------------------------------------------------------------------------------
+// Contract transactions (C06). The transfer value of a contract call/creation comes from the transaction's
+// JSON data and is handed to EVM.Call / EVM.Create, whose value transfer (vm.CanTransfer, vm.Transfer)
+// only moves value for amounts >= 0: a negative amount passes CanTransfer, credits the sender and debits
+// the recipient. The decoder is therefore the place where the sign must be settled.
+
+//@ func contractExecutor.decodeContractData
+//@   property C06
+//@   requires this != nil && this.logger != nil
+//@   ensures [nonneg] result0 != nil ==> result0.TransferValue != nil && big(result0.TransferValue) >= 0
+//@   ensures [ok]     result0 != nil ==> result1 == ""
